@@ -11,6 +11,7 @@ import tarfile
 import traceback
 from typing import Any
 
+from .. import c33_clean
 from ..gen import archive as gen_archive
 from ..runner import Divergence, Driver, Env, Outcome, Violation, diff_streams
 
@@ -25,6 +26,22 @@ THEOREMS = [
     "C33_wrong_password",
     "C33_no_password",
     "C33_framing",
+    # extension: names beyond the valid ones, archives beyond the written ones, the writer counted, cleaning, the service's path
+    "C33_roundtrip_dotfree",
+    "C33_domain_tight",
+    "C33_classification_any_name",
+    "C33_wrong_password_any_backup",
+    "C33_no_password_any_backup",
+    "C33_any_archive_wrong_password_fails",
+    "C33_reader_refines_spec",
+    "C33_reader_password_use",
+    "C33_member_count",
+    "C33_fresh_draws",
+    "C33_clean_source_shape",
+    "C33_clean_keeps_name",
+    "C33_clean_idempotent",
+    "C33_clean_exact",
+    "C33_service_roundtrip",
 ]
 EXPLANATION = (
     "Lean model M14 of archive.py / encryption.py: an archive is its ordered list of regular-file members (name, bytes); "
@@ -49,7 +66,27 @@ EXPLANATION = (
     "characters that YAML escapes, folded prose, thousands of small keys) go through writer, reader, model and monitors on every "
     "tier; C33_size_agnostic pins that the archive layer has no length test, bounded read or size constant. Values the "
     "reader hands back are canonicalised totally (non-str keys, dates, bytes), and a scenario the harness cannot finish is "
-    "reported with its input instead of ending the run."
+    "reported with its input instead of ending the run. "
+    "EXTENSION. Theorems beyond the property's domain and beyond written archives: the round trip needs only distinct dot-free names "
+    "(C33_roundtrip_dotfree) and needs both (C33_domain_tight: `x` next to `x.secret`, `app` twice -- replayed on the real code); for "
+    "EVERY name the secret / generation members are classified as what they are and the resource member is never ignored "
+    "(C33_classification_any_name), hence a different password / none is refused for every backup whatsoever that holds a secret "
+    "(C33_wrong_password_any_backup, C33_no_password_any_backup) and for ANY archive, hand-made or not, that holds a member "
+    "`<name>.secret.enc` sealed under another password (C33_any_archive_wrong_password_fails); on every archive it accepts the reader "
+    "refines a specification that never runs it -- entries = resource names in order of first appearance, each with the LAST resource / "
+    "secret (either form) / generation member of its name, names distinct (C33_reader_refines_spec, invariant of the reader's fold by "
+    "induction over the members) -- and its password matters for encrypted members only (C33_reader_password_use); the writer emits "
+    "exactly 1 + deployments + secrets + generations members (C33_member_count) and seals the i-th encrypted member with the i-th "
+    "os.urandom draw, each draw once (C33_fresh_draws). Cleaning (`clean_crd_metadata` / `clean_secret_metadata` / `_clean_metadata`, "
+    "model ArchiveClean over the regenerated allow-lists, prefixes and keys; statement shape pinned by C33_clean_source_shape): keeps "
+    "metadata.name -- the writer names members after the cleaned resource, the service keys secrets and generations by the raw one "
+    "(C33_clean_keeps_name), is idempotent (C33_clean_idempotent), removes exactly status / non-allow-listed metadata / system "
+    "annotations / an emptied annotations key (C33_clean_exact); C33_service_roundtrip composes cleaning, the service's keying (shape "
+    "re-read from manage_api/backup_service.py), writer and reader: every cluster state with distinct dot-free names restores under the "
+    "cluster names with the cleaned resources, the paired secrets and the cluster generations. Tie: driver op `clean` against the real "
+    "cleaners; the REAL BackupService (backup, restore, restore under another password) on an in-memory cluster; hand-made archives "
+    "with links / devices / AREGTYPE / CONTTYPE members and repeated members, checked against an independent last-member-wins reading; "
+    "the recorded os.urandom draws against the stored encrypted members."
 )
 LEVEL_TEXT = "proof (all backups, passwords, codecs and AEADs satisfying the stated laws) + correspondence + implementation-side monitors; encryption half partial (stand-in cipher)"
 ASSUMPTIONS = [
@@ -72,12 +109,25 @@ ASSUMPTIONS = [
     "its acceptance of one trailing newline (`$`), which the model's validName rejects",
     "resources are JSON-like values as returned by the Kubernetes API (str keys; str/int/float/bool/None/list/dict); secret "
     "values are valid UTF-8 strings (k8s_client.get_secret_data decodes them)",
+    "cleaning is modelled for documents whose `metadata` (when present) is a mapping and whose `metadata.annotations` (when present) is "
+    "a mapping with str keys, as the Kubernetes API returns them; on anything else the Python code raises and the model says nothing. "
+    "Dict order is not modelled (yaml.dump sorts keys); in-place mutation is modelled as a function (the service reads name and "
+    "generation before it cleans: pinned by C33_clean_source_shape, exercised by the service runs)",
+    "the service path (C33_service_roundtrip, C33/service_roundtrip[...]) covers BackupService._perform_backup / _perform_restore with "
+    "k8s_client, settings and backup.storage replaced by in-memory stand-ins (kubernetes, pydantic-settings, botocore are absent): what the "
+    "real cluster / S3 do is not exercised; the service's two dicts are association lists in the model (names distinct)",
+    "C33_fresh_draws says which os.urandom draw seals which member; that os.urandom does not repeat itself is the operating system's "
+    "business (the monitor checks distinctness of the stored salt||nonce prefixes only under the hash-scripted urandom)",
 ]
 TRUSTED_EXTRA = [
     "pyshims/cryptography: STAND-IN for the absent `cryptography` package (AESGCM/PBKDF2HMAC/hashes/InvalidTag interface over "
     "hashlib+hmac; NOT AES-GCM) -- the cipher is trusted, not verified",
     "harness/gen/archive.py (AST extraction of suffixes, reader chain, password tests, framing constants, KDF parameters)",
     "tarfile, gzip, PyYAML, json of the running interpreter",
+    "harness/gen/archive_clean.py (AST extraction of the allow-lists, prefixes, the statements of _clean_metadata, the writer's name "
+    "expression, the order of reads in BackupService._perform_backup)",
+    "harness/c33_clean.py: in-memory stand-ins for llama_agents.control_plane.{k8s_client, settings, backup.storage} under which the real "
+    "manage_api/backup_service.py is imported",
 ]
 LEAN_TARGETS = ["WfProps.C33"]
 
@@ -759,6 +809,23 @@ def monitor_backup(I: Impl, case: dict, deps: list[dict], secrets: dict, gens: d
     if len(set(names)) != len(names) or len(names) != want:
         out.violations.append(Violation(f"C33/members[{'collision' if len(set(names)) != len(names) else 'count'}]",
                                         f"{len(names)} members {names!r:.200}, expected {want} distinct", case))
+    # M5 randomness: one (salt, nonce) draw per encrypted member, used in archive order, never shared between members
+    if calls is not None:
+        enc = [(n, b) for n, b in real_members if n.endswith(".secret.enc")]
+        n_sec = sum(1 for e in exp if e[2] is not None)
+        want_calls = 2 * n_sec if pw is not None else 0
+        if len(calls) != want_calls:
+            out.violations.append(Violation(f"C33/draws[count,pw={pc}]",
+                                            f"os.urandom was called {len(calls)} times for {n_sec} secrets (expected {want_calls})", case))
+        else:
+            heads = [b[:len(calls[2 * i]) + len(calls[2 * i + 1])] for i, (_n, b) in enumerate(enc)]
+            if any(h != calls[2 * i] + calls[2 * i + 1] for i, h in enumerate(heads)):
+                out.violations.append(Violation(f"C33/draws[order,pw={pc}]",
+                                                "the i-th encrypted member does not start with the i-th (salt, nonce) drawn", case))
+            elif case.get("rnd_mode", "hash") == "hash" and len(set(heads)) != len(heads):
+                out.violations.append(Violation(f"C33/draws[shared,pw={pc}]",
+                                                f"two encrypted members of one archive share salt and nonce: {[n for n, _ in enc]!r:.200}", case))
+            out.count(f"draws:{len(enc)}")
 
 
 def monitor_decomposition(I: Impl, case: dict, out: Outcome) -> None:
@@ -836,6 +903,7 @@ def run_hostile(I: Impl, case: dict, out: Outcome, ops: list[str], impl: list[st
     toks = Tokens()
     buf = io.BytesIO()
     sym_members = []
+    plain_members: list[tuple[str, dict]] = []
     with tarfile.open(fileobj=buf, mode="w:gz") as tar:
         for m in case["members"]:
             if m.get("dir"):
@@ -843,11 +911,22 @@ def run_hostile(I: Impl, case: dict, out: Outcome, ops: list[str], impl: list[st
                 info.type = tarfile.DIRTYPE
                 tar.addfile(info)
                 continue
+            if m.get("link"):  # not a regular file: symbolic / hard link, fifo, character device -- the reader passes over it
+                info = tarfile.TarInfo(name=m["name"])
+                info.type = {"sym": tarfile.SYMTYPE, "hard": tarfile.LNKTYPE, "fifo": tarfile.FIFOTYPE, "chr": tarfile.CHRTYPE}[m["link"]]
+                info.linkname = m.get("target", "manifest.json")
+                tar.addfile(info)
+                out.count("hostile:member:" + m["link"])
+                continue
             real, sym = payload_bytes(I, m["payload"], toks)
             info = tarfile.TarInfo(name=m["name"])
+            if m.get("type"):  # the two other type flags tarfile counts as regular files
+                info.type = {"areg": tarfile.AREGTYPE, "cont": tarfile.CONTTYPE}[m["type"]]
+                out.count("hostile:member:" + m["type"])
             info.size = len(real)
             tar.addfile(info, io.BytesIO(real))
             sym_members.append((m["name"], sym))
+            plain_members.append((m["name"], m["payload"]))
     out.evaluations += 1
     out.count("hostile")
     ops.append("|".join(["read", pw_field(case["rpw"]), show_members(sym_members)]))
@@ -861,6 +940,73 @@ def run_hostile(I: Impl, case: dict, out: Outcome, ops: list[str], impl: list[st
         kind = I.classify_exc(e)
         impl.append("err " + kind)
         out.count("hostile:" + kind)
+        r = None
+    monitor_hostile(case, plain_members, r, out)
+
+
+def _intact_enc(p: dict) -> bool:
+    return p.get("t") == "enc" and not p.get("tamper") and len(p.get("salt", [])) == 16 and len(p.get("nonce", [])) == 12
+
+
+def monitor_hostile(case: dict, members: list[tuple[str, dict]], r: Any, out: Outcome) -> None:
+    """the reader on an archive nobody's writer produced, stated on the real reader's result alone (member names are looked at
+    with str.endswith here, not with the model): an encrypted secret sealed under another password makes the read fail; a
+    successful read has distinct entry names in order of first appearance, and every entry carries the LAST resource / secret /
+    generation member of its name."""
+    rpw = case["rpw"]
+    sealed_other = [n for n, p in members if n.endswith(".secret.enc") and _intact_enc(p) and p["pw"] != rpw]
+    if r is not None and sealed_other:
+        out.violations.append(Violation(
+            f"C33/any_archive_wrong_password_reads[reader={pw_class(rpw)}]",
+            f"the archive holds {sealed_other[0]!r}, sealed under another password than the reader's {rpw!r}, and was read: "
+            f"{[(e.name, e.secret) for e in r.entries]!r:.200}", case))
+        return
+    if r is None:
+        return
+    def kind_of(n: str) -> tuple[str, str] | None:
+        if n == "manifest.json":
+            return None
+        for suf, k in ((".secret.enc", "secret"), (".meta.json", "generation"), (".secret.yaml", "secret"), (".yaml", "cr")):
+            if n.endswith(suf):
+                return k, n[:-len(suf)]
+        return None
+    order: list[str] = []
+    last: dict[tuple[str, str], dict] = {}
+    for n, p in members:
+        kd = kind_of(n)
+        if kd is None:
+            continue
+        if kd[0] == "cr" and kd[1] not in order:
+            order.append(kd[1])
+        last[kd] = p
+    def val(p: dict | None, k: str) -> Any:
+        if p is None:
+            return None
+        if p["t"] in ("yaml", "enc"):
+            return p.get("obj")
+        if p["t"] == "meta":
+            return p["gen"]
+        return ("?", p["t"])  # rawyaml / junk / manifest-as-yaml: not compared
+    got_names = [e.name for e in r.entries]
+    what = None
+    if len(set(got_names)) != len(got_names):
+        what, text = "duplicate_names", f"entry names {got_names!r:.200}"
+    elif got_names != order:
+        what, text = "names", f"entries {got_names!r:.200}, resource members name {order!r:.200} (first appearance)"
+    else:
+        for e in r.entries:
+            for k, have in (("cr", e.cr), ("secret", e.secret), ("generation", e.generation)):
+                want = val(last.get((k, e.name)), k)
+                if isinstance(want, tuple):
+                    continue
+                if canon(have) != canon(want):
+                    what, text = "last_" + k, f"entry {e.name!r} has {k} {have!r:.120}; the last {k} member of that name holds {want!r:.120}"
+                    break
+            if what:
+                break
+    out.count("hostile:spec:" + (what or "ok"))
+    if what:
+        out.violations.append(Violation(f"C33/reader_spec[{what}]", "reading a hand-made archive: " + text, case))
 
 
 # --------------------------------------------------------------------------
@@ -1191,14 +1337,20 @@ def gen_hostile(rng: Any) -> dict:
             members.append({"name": rng.choice(["README.md", nm + ".yml", nm + ".json", "notes.txt", nm + ".yaml.bak", ".yaml", ".secret.yaml",
                                                  "manifest.json.bak", nm + ".secret", "sub/manifest.json"]),
                             "payload": {"t": "yaml", "obj": {"k": 1}} if rng.random() < 0.8 else {"t": "junk"}})
-        elif k < 0.88:
+        elif k < 0.86:
             members.append({"name": rng.choice([nm + ".yaml", nm + ".secret.yaml", "manifest.json", "d"]), "dir": True})
+        elif k < 0.88:
+            members.append({"name": rng.choice([nm + ".yaml", nm + ".secret.yaml", nm + ".secret.enc", nm + ".meta.json", "manifest.json"]),
+                            "link": rng.choice(["sym", "hard", "fifo", "chr"]), "target": rng.choice(["manifest.json", nm + ".yaml", "/etc/passwd"])})
         elif k < 0.94 and members:
             members.append(json.loads(json.dumps(rng.choice(members))))  # an exact duplicate member
         else:
             members.append({"name": "manifest.json", "payload": {"t": "manifest", "fields": dict(full_manifest, namespace="second")}})
     if rng.random() < 0.3:
         rng.shuffle(members)
+    for m in members:
+        if "payload" in m and rng.random() < 0.04:
+            m["type"] = rng.choice(["areg", "cont"])
     return {"kind": "hostile", "members": members, "rpw": rpw}
 
 
@@ -1281,6 +1433,40 @@ def corpus() -> list[dict]:
             {"name": "web.yaml", "payload": {"t": "rawyaml", "text": "kind: X\nspec:\n  env: 1\n  ? "}},
             {"name": "web.secret.yaml", "payload": {"t": "rawyaml", "text": "1: a\n'1': b\n2001-12-14: c\n~: d\nwhen: 2001-12-14\nset: !!set {a, b}\n"}},
             {"name": "db.yaml", "payload": {"t": "rawyaml", "text": "- 1\n- ~: ~\n"}}]},
+        # last member of a name wins, the first appearance of a name decides the order; links / devices are passed over;
+        # AREGTYPE / CONTTYPE members count as regular files
+        {"kind": "hostile", "rpw": "pw", "members": [
+            {"name": "web.yaml", "payload": {"t": "yaml", "obj": {"i": 1}}},
+            {"name": "db.yaml", "payload": {"t": "yaml", "obj": {"i": 9}}, "type": "areg"},
+            {"name": "web.secret.yaml", "payload": {"t": "yaml", "obj": {"K": "clear"}}},
+            {"name": "web.meta.json", "payload": {"t": "meta", "gen": 3}},
+            {"name": "db.secret.yaml", "link": "sym", "target": "web.secret.yaml"},
+            {"name": "db.yaml", "link": "hard", "target": "web.yaml"},
+            {"name": "web.yaml", "payload": {"t": "yaml", "obj": {"i": 8}}, "type": "cont"},
+            {"name": "web.secret.enc", "payload": {"t": "enc", "pw": "pw", "obj": {"K": "enc"}, "salt": [3] * 16, "nonce": [4] * 12}},
+            {"name": "web.meta.json", "payload": {"t": "meta", "gen": 4}},
+            {"name": "manifest.json", "link": "fifo"},
+            {"name": "manifest.json", "payload": {"t": "manifest", "fields": {"version": 1, "timestamp": "t", "namespace": "n", "deployment_count": 2, "encrypted": True}}}]},
+        # two clear secrets / two encrypted secrets / encrypted then clear for one name: the last one is restored
+        {"kind": "hostile", "rpw": "pw", "members": [
+            {"name": "manifest.json", "payload": {"t": "manifest", "fields": {"version": 1, "timestamp": "t", "namespace": "n", "deployment_count": 3, "encrypted": False}}},
+            {"name": "a.secret.yaml", "payload": {"t": "yaml", "obj": {"K": "first"}}},
+            {"name": "b.secret.enc", "payload": {"t": "enc", "pw": "pw", "obj": {"K": "first"}, "salt": [7] * 16, "nonce": [8] * 12}},
+            {"name": "c.secret.enc", "payload": {"t": "enc", "pw": "pw", "obj": {"K": "first"}, "salt": [7] * 16, "nonce": [9] * 12}},
+            {"name": "a.yaml", "payload": {"t": "yaml", "obj": {"i": 1}}},
+            {"name": "b.yaml", "payload": {"t": "yaml", "obj": {"i": 2}}},
+            {"name": "c.yaml", "payload": {"t": "yaml", "obj": {"i": 3}}},
+            {"name": "a.secret.yaml", "payload": {"t": "yaml", "obj": {"K": "second"}}},
+            {"name": "b.secret.enc", "payload": {"t": "enc", "pw": "pw", "obj": {"K": "second"}, "salt": [7] * 16, "nonce": [10] * 12}},
+            {"name": "c.secret.yaml", "payload": {"t": "yaml", "obj": {"K": "second"}}}]},
+        # the same kind of archive read under another password / none: the encrypted member stops the read wherever it stands
+        {"kind": "hostile", "rpw": "pW", "members": [
+            {"name": "manifest.json", "payload": {"t": "manifest", "fields": {"version": 1, "timestamp": "t", "namespace": "n", "deployment_count": 1, "encrypted": False}}},
+            {"name": "web.yaml", "payload": {"t": "yaml", "obj": {"i": 1}}},
+            {"name": "ghost.secret.enc", "payload": {"t": "enc", "pw": "pw", "obj": {"K": "enc"}, "salt": [5] * 16, "nonce": [6] * 12}}]},
+        {"kind": "hostile", "rpw": None, "members": [
+            {"name": ".secret.enc", "payload": {"t": "enc", "pw": "", "obj": {"K": "enc"}, "salt": [5] * 16, "nonce": [6] * 12}},
+            {"name": "manifest.json", "payload": {"t": "manifest", "fields": {"version": 1, "timestamp": "t", "namespace": "n", "deployment_count": 0, "encrypted": True}}}]},
         {"kind": "blob", "pw": "pw", "m": [1, 2, 3], "op": "plain", "rnd_seed": 3},
         {"kind": "blob", "pw": "", "m": [], "op": "wrongpw", "rpw": " ", "rnd_seed": 4},
         {"kind": "blob", "pw": "pw", "m": [], "op": "trunc", "k": 43, "rnd_seed": 5},
@@ -1301,6 +1487,14 @@ def run_case(I: Impl, case: dict, out: Outcome, ops: list[str], impl: list[str],
         run_blob(I, case, out, ops, impl, ctx)
     elif k == "decompose":
         monitor_decomposition(I, case["backup"], out)
+    elif k == "clean":
+        c33_clean.run_clean(I, case, out, ops, impl, ctx, Tokens, canon, Violation)
+    elif k == "service":
+        if _SERVICE and _SERVICE[0] is not None:
+            c33_clean.run_service(I, _SERVICE[0], case, out, canon, Violation, pw_class)
+
+
+_SERVICE: list[Any] = []
 
 
 def run(env: Env) -> Outcome:
@@ -1310,8 +1504,13 @@ def run(env: Env) -> Outcome:
                 "generation maps x passwords (none, empty, ASCII, Unicode, 5000 chars) x reader passwords; large members (one or two "
                 "values of 32 KiB..4 MiB per backup: around 64 KiB / 1 MiB / 2 MiB and around size constants of the source; shapes pem, "
                 "ascii, latin, cjk, emoji, words, mixed, map; in secrets, spec, annotations; 8 on quick, 41 on thorough); hostile archives; "
-                "encrypt/decrypt blobs (plain, wrong password, bit flips, truncations, junk). non-trivial = backup with a secret or "
-                "generation / hostile archive read successfully / blob decrypted; distinct by canonical case")
+                "encrypt/decrypt blobs (plain, wrong password, bit flips, truncations, junk); documents to clean (top-level keys incl. "
+                "status / look-alikes, metadata absent or any subset of 21 keys, annotations absent / empty / system-only / mixed / "
+                "user-only from 17 keys incl. prefix look-alikes; both cleaners); cluster states for the real BackupService on an "
+                "in-memory cluster (0-6 deployments with cluster metadata, paired / stray secrets, generations, 5 passwords + none; "
+                "backup, read, restore under another password, restore). non-trivial = backup with a secret or generation / "
+                "hostile archive read successfully / blob decrypted / document changed by cleaning / cluster with a paired secret or "
+                "generation; distinct by canonical case")
     I = Impl()
     ops: list[str] = []
     impl: list[str] = []
@@ -1320,6 +1519,15 @@ def run(env: Env) -> Outcome:
     if env.replay is not None:
         cases.append(env.replay["payload"]["case"])
     cases += corpus()
+    cases += c33_clean.clean_corpus()
+    try:
+        _SERVICE[:] = [c33_clean.get_service()]
+        cases += c33_clean.service_corpus()
+    except Exception as e:  # the service module moved / needs something new: said, not hidden; the archive layer is checked regardless
+        _SERVICE[:] = [None]
+        out.notes.append(f"C33: manage_api/backup_service.py could not be imported with stand-in collaborators ({type(e).__name__}: {e}); "
+                         "the service path is not exercised on this run")
+        out.count("service:unavailable")
     rng = env.rng
     # large members: sizes relative to whatever integers of the backup modules could be size bounds (re-read now) + fixed marks
     hints = gen_archive.size_hints(out.notes)
@@ -1339,6 +1547,15 @@ def run(env: Env) -> Outcome:
         cases.append(gen_hostile(rng))
     for _ in range(env.budget(300, 6000)):
         cases.append(gen_blob(rng))
+    # streams of the extension draw from a generator of their own (the streams above stay what they were per seed)
+    _st = rng.getstate()
+    xrng = random.Random(rng.getrandbits(64) ^ 0xC33)
+    rng.setstate(_st)
+    for _ in range(env.budget(300, 6000)):
+        cases.append(c33_clean.gen_clean_case(xrng, gen_value))
+    if _SERVICE[0] is not None:
+        for _ in range(env.budget(40, 800)):
+            cases.append(c33_clean.gen_service_case(xrng, gen_value, gen_secret_map, PW_POOL))
     n_dec = env.budget(40, 800)
     dec_done = 0
     for ci, c in enumerate(cases):
